@@ -30,6 +30,7 @@ class Contract:
         self.induction = ()
         self.theorems = ()
         self.native_only = ()
+        self.spelling = ()       # clauses that fix one spelling of a text the property fixes only up to meaning
         self.opaque_str = ()
         self.as_function = False
         self.reveal_in = ()
@@ -138,10 +139,10 @@ def load_contracts(index, only_props=None):
                 elif isinstance(st, ast.Assign) and isinstance(st.targets[0], ast.Name):
                     n = st.targets[0].id
                     if n not in ('raises', 'modifies', 'reveal', 'nullable', 'lemmas', 'opaque', 'result_kind', 'tactics',
-                                 'lemma', 'no_functional', 'kinds', 'doc_view', 'induction', 'as_function', 'reveal_in', 'theorems', 'native_only', 'opaque_str'):
+                                 'lemma', 'no_functional', 'kinds', 'doc_view', 'induction', 'as_function', 'reveal_in', 'theorems', 'native_only', 'opaque_str', 'spelling'):
                         continue        # native-only attributes (input generators of the bounded stand-in)
                     val = _const_eval(st.value, NSL)
-                    if n in ('raises', 'modifies', 'reveal', 'nullable', 'lemmas', 'induction', 'reveal_in', 'theorems', 'native_only', 'opaque_str'):
+                    if n in ('raises', 'modifies', 'reveal', 'nullable', 'lemmas', 'induction', 'reveal_in', 'theorems', 'native_only', 'opaque_str', 'spelling'):
                         setattr(c, n, tuple(val) if not isinstance(val, str) else (val,))
                     elif n in ('opaque', 'result_kind', 'tactics', 'lemma', 'no_functional', 'kinds', 'doc_view', 'as_function'):
                         setattr(c, n, val)
